@@ -1,6 +1,8 @@
 import FranzVerif.Model.C12
 import FranzVerif.Spec.C12
 import FranzVerif.Proof.C12
+import FranzVerif.Model.Share
+import FranzVerif.Proof.Share
 /-! C12 — share-group acknowledgements, PURE HALF: the per-record ack state machine (`tryAck`), the ack
 range builder (`buildAckRanges` / `coalesceAppendRange`) and the staleness filter (`filterStaleEntries`).
 
@@ -256,5 +258,153 @@ theorem filterStale_gaps (self epoch : Int) (gs : List Range) :
 /-- Non-vacuity: one deliverable entry, one from another source, one from a later epoch. -/
 example : filterEntries 0 2 [⟨5, 1, 0, 1⟩, ⟨6, 1, 1, 1⟩, ⟨7, 1, 0, 3⟩] = ([⟨5, 1, 0, 1⟩], 1, 2, some .state) := by
   decide
+
+
+/-! ## Protocol half: theorems over all accepted histories of `Model.Share`
+
+An accepted history is any event list the monitor does not refuse (`run {} h = some s`); the history
+correspondence (real share-group members of this tree x real kfake in synctest bubbles) is what says the
+implementation's histories are accepted. `stateAt h₁` are the monitor's ledgers after the prefix `h₁`:
+`pend` the final decisions made through the API that are not yet resolved (stage 0 unsent, 1 carried by a
+request, 2 that request answered without error), `confirmed` the accept/reject decisions whose request was
+answered without error and whose callback then reported no error, `openRecs` the records handed to the
+application without a final decision, `uncalled` the acknowledgements whose callback has not run. -/
+section Protocol
+open Model.Share Proof.Share
+
+/-- **Ack batches per partition are ascending and non-overlapping on the wire.** In every accepted history, the
+acknowledgement batches of any one request for any one partition, in wire order, each end strictly before every
+later one starts, and each is `first ≤ last`. -/
+theorem share_wire_batches_ascending (h : List Ev) (s : St) (hacc : Model.Share.run {} h = some s) (rid part : Nat) :
+    (batchesOf rid part h).Pairwise (fun a b => a.last < b.first) ∧ ∀ b ∈ batchesOf rid part h, b.first ≤ b.last := by
+  have hi := ascInv_of_run hacc rid part
+  rw [batches_eq hacc, List.filter_reverse] at hi
+  exact ⟨List.pairwise_reverse.1 hi.1, fun b hb => hi.2 b (List.mem_reverse.2 hb)⟩
+
+/-- **At most one final acknowledgement per delivery reaches the broker.** Whenever an accept or reject batch
+goes on the wire, every offset of it is backed by a final decision the member made through the API that no
+earlier request carries (a decision moves to `stage 1` when a request carries it and only comes back when that
+request is answered with an error or an error callback runs); and, unless an error callback intervened, its type is
+one of the unsent decisions for that offset. -/
+theorem share_final_ack_backed (h₁ h₂ : List Ev) (m rid part first last ty t : Nat) (s : St)
+    (hacc : Model.Share.run {} (h₁ ++ Ev.wireAck m rid part first last ty t :: h₂) = some s) (hty : ty = 1 ∨ ty = 3) :
+    ∀ o, first ≤ o → o ≤ last →
+      ∃ p ∈ (stateAt h₁).pend, p.m = m ∧ p.part = part ∧ p.off = o ∧ p.stage = 0 ∧
+        (p.lost = false → ∃ q ∈ (stateAt h₁).pend, q.m = m ∧ q.part = part ∧ q.off = o ∧ q.stage = 0 ∧ q.st = ty) := by
+  obtain ⟨s₁, h1, hc, _⟩ := run_split hacc
+  rw [stateAt_of_run h1]
+  obtain ⟨_, _, hu, htd⟩ := wireAck_check hc
+  intro o ho1 ho2
+  have hty' : (ty == 1 || ty == 3) = true := by rcases hty with h | h <;> simp [h]
+  simp only [unbacked, hty', Bool.true_and, List.any_eq_false, List.mem_range] at hu
+  have hp0 := hu (o - first) (by omega)
+  have hp : ∃ p ∈ s₁.pend, p.m = m ∧ p.part = part ∧ p.off = o ∧ p.stage = 0 := by
+    cases hany : s₁.pend.any (fun p => p.m == m && p.part == part && p.off == o - first + first && p.stage == 0) with
+    | false => simp [hany] at hp0
+    | true =>
+      simp only [List.any_eq_true, Bool.and_eq_true, beq_iff_eq] at hany
+      obtain ⟨p, hpm, ⟨⟨⟨a, b⟩, c⟩, d⟩⟩ := hany
+      exact ⟨p, hpm, a, b, by omega, d⟩
+  obtain ⟨p, hpm, hp1, hp2, hpo, hp4⟩ := hp
+  refine ⟨p, hpm, hp1, hp2, hpo, hp4, ?_⟩
+  intro hlost
+  have hty'' : (ty == 1 || ty == 2 || ty == 3) = true := by rcases hty with h | h <;> simp [h]
+  simp only [typeDiffers, hty'', Bool.true_and, List.any_eq_false] at htd
+  have hq0 := htd p hpm
+  cases hany : s₁.pend.any (fun q => q.m == m && q.part == part && q.off == p.off && q.stage == 0 && q.st == ty) with
+  | false =>
+    exfalso; apply hq0
+    simp [hany, hp1, hp2, hp4, hlost, covers]; omega
+  | true =>
+    simp only [List.any_eq_true, Bool.and_eq_true, beq_iff_eq] at hany
+    obtain ⟨q, hqm, ⟨⟨⟨⟨a, b⟩, c⟩, d⟩, e⟩⟩ := hany
+    exact ⟨q, hqm, a, b, by omega, d, e⟩
+
+/-- **A record whose accept or reject was confirmed without error is never redelivered.** No acquisition of an
+offset is handed out at a (virtual) time strictly after the time its accept/reject was confirmed. -/
+theorem share_confirmed_never_reacquired (h₁ h₂ : List Ev) (m part first last dc t : Nat) (s : St)
+    (hacc : Model.Share.run {} (h₁ ++ Ev.acquired m part first last dc t :: h₂) = some s) :
+    ∀ c ∈ (stateAt h₁).confirmed, ¬ (c.1 = part ∧ first ≤ c.2.1 ∧ c.2.1 ≤ last ∧ c.2.2 < t) := by
+  obtain ⟨s₁, h1, hc, _⟩ := run_split hacc
+  rw [stateAt_of_run h1]
+  exact acquired_check hc
+
+/-- **An acknowledgement is only confirmed to the member that holds the record.** If a request's accept/reject
+batch is answered without error while the newest acquisition of one of its offsets went to another member
+strictly before the request arrived, that other member has itself sent a final acknowledgement for the offset
+since (so the record may be finished); otherwise the broker must answer with an error. -/
+theorem share_ok_only_for_holder (h₁ h₂ : List Ev) (m rid part : Nat) (s : St)
+    (hacc : Model.Share.run {} (h₁ ++ Ev.wireRes m rid part 0 :: h₂) = some s) :
+    ∀ b ∈ (stateAt h₁).batches, b.rid = rid → b.part = part → b.m = m → (b.ty = 1 ∨ b.ty = 3) →
+      ∀ o, b.first ≤ o → o ≤ b.last → ∀ a, holder (stateAt h₁) part o = some a → a.m ≠ m → a.t < b.t →
+        ∃ hb ∈ (stateAt h₁).batches, hb.m = a.m ∧ hb.part = part ∧ hb.first ≤ o ∧ o ≤ hb.last ∧
+          isFinalTy hb.ty = true ∧ a.t ≤ hb.t := by
+  obtain ⟨s₁, h1, hc, _⟩ := run_split hacc
+  rw [stateAt_of_run h1]
+  exact wireRes_check hc
+
+/-- **At Close unacknowledged records are released.** When `Close` returns, every record the member was handed
+without a final decision is covered by a release batch the member sent, or the member's callback reported an
+error for the partition while closing. -/
+theorem share_close_releases (h₁ h₂ : List Ev) (m : Nat) (s : St)
+    (hacc : Model.Share.run {} (h₁ ++ Ev.closed m :: h₂) = some s) :
+    ∀ r ∈ (stateAt h₁).openRecs, r.1 = m →
+      (∃ b ∈ (stateAt h₁).batches, b.m = m ∧ b.part = r.2.1 ∧ b.first ≤ r.2.2 ∧ r.2.2 ≤ b.last ∧ b.ty = 2) ∨
+      (m, r.2.1) ∈ (stateAt h₁).closeErr := by
+  obtain ⟨s₁, h1, hc, _⟩ := run_split hacc
+  rw [stateAt_of_run h1]
+  exact closed_check hc
+
+/-- **FlushAcks returns only after the callbacks for all earlier acknowledgements have run.** When `FlushAcks`
+returns without error, no acknowledgement made before it was called is still waiting for its callback. -/
+theorem share_flush_after_callbacks (h₁ h₂ : List Ev) (m : Nat) (s : St)
+    (hacc : Model.Share.run {} (h₁ ++ Ev.flushEnd m true :: h₂) = some s) :
+    ∀ u ∈ (stateAt h₁).uncalled, ¬ (u.1 = m ∧ u.2.2 = true) := by
+  obtain ⟨s₁, h1, hc, _⟩ := run_split hacc
+  rw [stateAt_of_run h1]
+  exact flushEnd_check hc
+
+/-- **Acknowledgements are honoured.** At quiescence every final decision of a member that has closed was put on
+the wire (or an error was reported for its partition since: `lost`). -/
+theorem share_acks_sent_by_quiescence (h₁ h₂ : List Ev) (s : St)
+    (hacc : Model.Share.run {} (h₁ ++ Ev.quiesce :: h₂) = some s) :
+    ∀ p ∈ (stateAt h₁).pend, p.stage = 0 → p.lost = false → p.m ∉ (stateAt h₁).isClosed := by
+  obtain ⟨s₁, h1, hc, _⟩ := run_split hacc
+  rw [stateAt_of_run h1]
+  exact quiesce_check hc
+
+/-- Non-vacuity: an accepted history. Member 0 is handed offsets 0-2 (a transaction marker at 1 is acknowledged as
+a gap by the client), accepts 0, rejects 2, flushes; both decisions are confirmed; member 1 is handed offset 3,
+never decides, closes (release on the wire). -/
+example : accepts
+    [.acquired 0 0 0 2 1 10, .delivered 0 0 0 1, .delivered 0 0 2 1, .ack 0 0 0 1, .ack 0 0 2 3, .flushStart 0,
+     .wireAck 0 1 0 0 0 1 20, .wireAck 0 1 0 1 1 0 20, .wireAck 0 1 0 2 2 3 20, .wireRes 0 1 0 0, .callback 0 0 0 25, .flushEnd 0 true,
+     .acquired 1 0 3 3 1 30, .delivered 1 0 3 1, .closeStart 1, .wireAck 1 2 0 3 3 2 40, .wireRes 1 2 0 0, .closed 1,
+     .closeStart 0, .closed 0, .quiesce] = true := by decide
+
+/-- The monitor refuses: a descending batch list (the pre-5958f14 shape on the wire), … -/
+example : accepts [.acquired 0 0 0 6 1 0, .delivered 0 0 0 1, .delivered 0 0 4 1, .ack 0 0 0 1, .ack 0 0 4 1,
+    .wireAck 0 1 0 0 0 1 5, .wireAck 0 1 0 4 4 1 5, .wireAck 0 1 0 3 3 0 5] = false := by decide
+
+/-- … the same final decision carried by a second request while the first has not failed, … -/
+example : accepts [.acquired 0 0 0 0 1 0, .delivered 0 0 0 1, .ack 0 0 0 1,
+    .wireAck 0 1 0 0 0 1 5, .wireRes 0 1 0 0, .wireAck 0 2 0 0 0 1 6] = false := by decide
+
+/-- … a record acquired again after its accept was confirmed (the observable of the kfake defect: the late ack of
+member 0 is rejected by the broker but answered and confirmed as a success, the record comes back), … -/
+example : accepts [.acquired 0 0 7 7 1 0, .delivered 0 0 7 1, .ack 0 0 7 1,
+    .wireAck 0 1 0 7 7 1 3000, .wireRes 0 1 0 0, .callback 0 0 0 3300, .acquired 0 0 7 7 2 5000] = false := by decide
+
+/-- … a success answer for an accept of a record that another member has held since before the request arrived, … -/
+example : accepts [.acquired 1 0 10 16 1 81, .delivered 1 0 13 1, .acquired 0 0 10 16 2 3000, .autoAccept 1 0 13,
+    .wireAck 1 22 0 13 13 1 3081, .wireRes 1 22 0 0] = false := by decide
+
+/-- … Close returning with a record neither decided nor released, FlushAcks returning before a callback ran, and a
+decision that never reaches the wire. -/
+example : accepts [.acquired 0 0 0 0 1 0, .delivered 0 0 0 1, .closeStart 0, .closed 0] = false := by decide
+example : accepts [.acquired 0 0 0 0 1 0, .delivered 0 0 0 1, .ack 0 0 0 1, .flushStart 0, .flushEnd 0 true] = false := by decide
+example : accepts [.acquired 0 0 0 0 1 0, .delivered 0 0 0 1, .ack 0 0 0 1, .closeStart 0, .closed 0, .quiesce] = false := by decide
+
+end Protocol
 
 end Props.C12
